@@ -389,6 +389,8 @@ class FileWriter(FileBase):
         if self.bitsinfo.nbits < 32 and self.rescale:
             # arr should be normalized first
             arr = self.bitsinfo.quantize(arr)
+        # The file holds samples of the declared depth, whatever the input dtype
+        arr = np.ascontiguousarray(arr, dtype=self.bitsinfo.dtype)
         if self.bitsinfo.unpack:
             packed = pack(arr, self.bitsinfo.nbits, bitorder=self.bitsinfo.bitorder)
             packed.tofile(self.file_obj)
